@@ -358,18 +358,26 @@ func (dsc *dataStoreCommand) getKeyUnlocked(keyName string) (val string, exists 
 	return
 }
 
+// getKeyBytes returns a private copy of the string value: the caller works on
+// it after the lock is released, while other clients may write the stored
+// bytes in place (SETBIT, BITFIELD, SETRANGE).
 func (dsc *dataStoreCommand) getKeyBytes(keyName string) (val []byte, exists valueExists) {
-	sk, objExists := dsc.getKeyObject(keyName)
+	dsc.lock()
+	defer dsc.unlock()
+
+	sk, objExists := dsc.getKeyObjectUnlocked(keyName)
 	if !objExists {
 		exists = VALUE_DOESNT_EXIST
 		return
 	}
 
-	val = sk.getStringBytes()
-	if val == nil {
+	stored := sk.getStringBytes()
+	if stored == nil {
 		exists = VALUE_WRONG_TYPE
 		return
 	}
+	val = make([]byte, len(stored))
+	copy(val, stored)
 	return
 }
 
@@ -896,7 +904,10 @@ func simpleChecksum(data []byte) []byte {
 }
 
 func (dsc *dataStoreCommand) dump(keyName string) (output respValue) {
-	sk, exists := dsc.getKeyObject(keyName)
+	dsc.lock()
+	defer dsc.unlock()
+
+	sk, exists := dsc.getKeyObjectUnlocked(keyName)
 	if !exists {
 		return
 	}
@@ -1013,7 +1024,10 @@ func (dsc *dataStoreCommand) expire(keyName string, expiration time.Time, nx, xx
 }
 
 func (dsc *dataStoreCommand) expireTime(keyName string) (expiration time.Time, valid int) {
-	sk, exists := dsc.getKeyObject(keyName)
+	dsc.lock()
+	defer dsc.unlock()
+
+	sk, exists := dsc.getKeyObjectUnlocked(keyName)
 	if !exists {
 		valid = -2
 		return
@@ -1137,7 +1151,10 @@ func (dsc *dataStoreCommand) touch(keyName string) (exists bool) {
 }
 
 func (dsc *dataStoreCommand) getKeyType(keyName string) (keyType string) {
-	sk, exists := dsc.getKeyObject(keyName)
+	dsc.lock()
+	defer dsc.unlock()
+
+	sk, exists := dsc.getKeyObjectUnlocked(keyName)
 	if !exists {
 		return "none"
 	}
